@@ -137,7 +137,8 @@ KindRules(kind, kw) ==
       [] kind = "integer" ->
             LET lo == IF Has(kw, "min") THEN Get(kw, "min") ELSE XI(NoBound)
                 hi == IF Has(kw, "max") THEN Get(kw, "max") ELSE XI(NoBound)
-            IN IF lo.t # "int" \/ hi.t # "int" THEN KindBad("MinMaxType")
+            IN IF lo.t # "int" THEN KindBad("MinType:" \o lo.t)
+               ELSE IF hi.t # "int" THEN KindBad("MaxType:" \o hi.t)
                ELSE IF ~hasv THEN KindRes(TRUE, "ok", <<>>, lo.n, hi.n, VInt(0), TRUE)                  \* default undocumented
                ELSE IF v.t = "int" \/ (v.t = "str" /\ IsIntText(v.s))                                   \* [T40] '42'
                     THEN LET n == IF v.t = "int" THEN v.n ELSE IntOfText(v.s) IN
